@@ -91,6 +91,8 @@ class MemoryTimeline(MutableTimeline[Interval]):
         # Store recurring patterns with their unique IDs
         # Format: list of (recurring_event_id, RecurringPattern) tuples
         self._recurring_patterns: list[tuple[str, RecurringPattern[Interval]]] = []
+        # Sequence number making recurring_event_ids unique within this timeline
+        self._series_seq = 0
         # Use SortedList for O(log n) inserts (stays sorted automatically)
         ivls = SortedList(key=_interval_sort_key)
         self._static_intervals: list[Interval] = ivls
@@ -205,8 +207,11 @@ class MemoryTimeline(MutableTimeline[Interval]):
         Returns:
             List containing single WriteResult
         """
-        # Use pattern's object ID as recurring_event_id
-        recurring_id = str(id(pattern))
+        # Use the pattern's object ID plus a per-timeline sequence number as
+        # recurring_event_id: id() alone is reused once the caller's (often
+        # temporary) pattern object has been garbage collected
+        self._series_seq += 1
+        recurring_id = f"{id(pattern)}-{self._series_seq}"
 
         # Merge metadata: container defaults fill in for None/missing values
         # Then pattern metadata, then passed metadata (each can override previous)
